@@ -251,7 +251,12 @@ func c15E2EGenOne(rng *rand.Rand, i int) c15Case {
 	segs := 2 + rng.Intn(3)
 	for k := 0; k < segs; k++ {
 		e := b.ep()
-		switch rng.Intn(6) {
+		switch rng.Intn(7) {
+		case 6: // the registry answer changes (adapters of dropped endpoints are closed; they may still be queued)
+			b.segRefresh()
+			for q := 0; q < len(b.reg)+1; q++ {
+				b.call(0, 0, false)
+			}
 		case 0, 1: // an endpoint stops answering or refuses connections: streak, block
 			if b.coin(0.5) {
 				b.net(e, false)
